@@ -1,3 +1,294 @@
-"""Catalogue part A (format: entities.py, DSL: shapes.py)."""
+"""Catalogue part A (format: entities.py, DSL: shapes.py).
+
+Packages: auth, axolotl, protocol_calls, protocol_chatstate, protocol_contacts, protocol_ib, protocol_iq,
+protocol_presence, protocol_privacy.
+
+Grounding rules used throughout (same as entities_catalog.py):
+  * a shape lists exactly the attributes of the class docstring / fixture / parser; an attribute is OPT only where the
+    docstrings disagree about its presence or the parser *and* the serialiser both treat "absent" as a value of its own;
+  * `offline` is generated as required wherever the docstring shows it: several parsers turn "absent" into False and
+    the serialiser then writes offline="0" - that is the "absent means zero" idiom and deliberately not provoked;
+  * where two fields of a stanza are the same value by construction (receipt id and retry id), they are drawn from one
+    shared strategy;
+  * list children that the entity keeps in a dict (keyed by jid / number) are generated with pairwise different keys
+    (one child slot per disjoint key domain) - a real server does not answer twice for the same key.
+"""
+from hypothesis import strategies as st
+
 from .entities import recv, send, exclude
 from .shapes import *  # noqa: F401,F403
+from .shapes import Kind
+
+AUTH = "yowsup.layers.auth.protocolentities"
+AXO = "yowsup.layers.axolotl.protocolentities"
+CALLS = "yowsup.layers.protocol_calls.protocolentities"
+CHATSTATE = "yowsup.layers.protocol_chatstate.protocolentities"
+CONTACTS = "yowsup.layers.protocol_contacts.protocolentities"
+IB = "yowsup.layers.protocol_ib.protocolentities"
+IQ = "yowsup.layers.protocol_iq.protocolentities"
+PRESENCE = "yowsup.layers.protocol_presence.protocolentities"
+PRIVACY = "yowsup.layers.protocol_privacy.protocolentities"
+
+SERVER = CONST("s.whatsapp.net")          # YowConstants.DOMAIN == YowConstants.WHATSAPP_SERVER
+FLAG = WORD("0", "1")
+MEDIATYPE = WORD("image", "audio", "location", "document", "contact")   # EncryptedMessageProtocolEntity docstring
+ENCTYPE = WORD("pkmsg", "msg", "skmsg")                                  # EncProtocolEntity.TYPES
+
+
+def _shared(kind, key):
+    """the same drawn value at every place of one generated case (fields that are equal by construction)"""
+    return Kind("%s(shared:%s)" % (kind.name, key), st.shared(kind.strategy, key="catalog_a:" + key))
+
+
+def _jid_in(domain):
+    """user jids whose number starts with `domain`: different domains give different jids"""
+    return Kind("JID[%s]" % domain, PHONE.strategy.map(lambda p, d=domain: d + p + "@s.whatsapp.net"))
+
+
+def _number_in(domain):
+    """phone number as textual node data, first digit `domain`"""
+    return Kind("NUMBER[%s]" % domain, PHONE.strategy.map(lambda p, d=domain: (d + p).encode("ascii")), is_bytes=True)
+
+
+def _distinct(make_shape, kind_for, hi=3):
+    """child slots for 1..hi children built by make_shape(kind) whose key kinds live in disjoint domains"""
+    return [CH(make_shape(kind_for(str(i + 1))), 1 if i == 0 else 0, 1) for i in range(hi)]
+
+
+# ====================================================================================================== auth
+recv(AUTH + ":SuccessProtocolEntity",
+     N("success", {"creation": TS, "props": COUNT, "t": TS,
+                   "location": Kind("DATACENTER", st.text(alphabet="abcdefghijklmnopqrstuvwxyz", min_size=3, max_size=3))}),
+     owner="auth", notes="fixture test_success.py; all four attributes are read, creation and t through int()")
+recv(AUTH + ":FailureProtocolEntity",
+     N("failure", {"reason": ONEOF(WORD("not-authorized"), TEXT)}),
+     owner="auth", notes="fixture reason=not-authorized; the noise layer also fabricates <failure reason=str(exception)>")
+recv(AUTH + ":StreamFeaturesProtocolEntity",
+     N("stream:features", {}, children=[CH(N(WORD("readreceipts", "groups_v2", "privacy", "presence")), 0, 4)]),
+     owner="auth", notes="feature children are bare tags; pre-Noise stanza but the handler is still registered")
+recv(AUTH + ":StreamErrorProtocolEntity",
+     N("stream:error", {}, children=[N("conflict"), CH(N("text", data=TEXTDATA), 0, 1)]),
+     owner="auth", notes="TYPE_CONFLICT docstring: <conflict/> plus optional <text>")
+recv(AUTH + ":StreamErrorProtocolEntity",
+     N("stream:error", {}, children=[ALT(N("ack"), N("xml-not-well-formed"))]),
+     owner="auth", name="StreamErrorProtocolEntity_bare", notes="TYPE_ACK / TYPE_XML_NOT_WELL_FORMED docstrings: a single empty child")
+exclude(AUTH + ":AuthProtocolEntity", "pre-Noise WAUTH-2 login stanza; no layer, demo or stack references it")
+exclude(AUTH + ":ChallengeProtocolEntity", "pre-Noise WAUTH-2 login stanza; no layer, demo or stack references it")
+exclude(AUTH + ":ResponseProtocolEntity", "pre-Noise WAUTH-2 login stanza; no layer, demo or stack references it")
+
+# ====================================================================================================== axolotl
+_KEY_ID = BYTES(3)        # docstring HEX:000000 / HEX:36b545; AxolotlControlLayer.adjustId pads to >= 3 bytes
+_PUBKEY = BYTES(32)
+_SIGNATURE = BYTES(64)
+
+
+def _keys_user(jid_kind):
+    return N("user", {"jid": jid_kind}, children=[
+        N("registration", data=BYTES(4)),
+        N("type", data=CONST(b"\x05")),
+        N("identity", data=_PUBKEY),
+        N("skey", {}, children=[N("id", data=_KEY_ID), N("value", data=_PUBKEY), N("signature", data=_SIGNATURE)]),
+        N("key", {}, children=[N("id", data=_KEY_ID), N("value", data=_PUBKEY)]),
+    ])
+
+
+send(AXO + ":GetKeysIqProtocolEntity", [LIST(JID, 1, 4)], {"reason": OPT(WORD("identity"))},
+     owner="axolotl_send", module="axolotl", route="layer",
+     notes="AxolotlBaseLayer.getKeysFor, used by all three axolotl layers; reason='identity' after an identity change. "
+           "The cli demo also pushes one through the stack (iq layer lets xmlns 'encrypt' pass)")
+recv(AXO + ":ResultGetKeysIqProtocolEntity",
+     N("iq", {"type": CONST("result"), "from": SERVER, "id": ID},
+       children=[N("list", {}, children=_distinct(_keys_user, _jid_in))]),
+     owner="axolotl_send", module="axolotl", route="internal", request="GetKeysIqProtocolEntity",
+     notes="widths as in the class docstring (what the server sends): 4-byte registration, 1-byte type, 3-byte key ids; "
+           "the unit-test fixture instead builds every integer with _intToBytes (4 bytes)")
+
+
+def _set_keys(identityKey, signedPreKey, preKeys, djbType, registrationId=None):
+    """constructor adapter: case arguments are JSON values (a tuple arrives as a list), the constructor insists on a tuple"""
+    from yowsup.layers.axolotl.protocolentities import SetKeysIqProtocolEntity
+    return SetKeysIqProtocolEntity(identityKey, tuple(signedPreKey), preKeys, djbType, registrationId)
+
+
+_r = send(AXO + ":SetKeysIqProtocolEntity",
+          [_PUBKEY,
+           Kind("SIGNED_PREKEY", st.tuples(_KEY_ID.strategy, _PUBKEY.strategy, _SIGNATURE.strategy)),
+           Kind("PREKEYS", st.dictionaries(_KEY_ID.strategy, _PUBKEY.strategy, min_size=1, max_size=4)),
+           CONST(5),
+           ONEOF(BYTES(3), BYTES(4))],
+          owner="axolotl_control", module="axolotl", route="layer",
+          notes="AxolotlControlLayer.flush_keys: identity key, (id, key, signature), {id: key}, Curve.DJB_TYPE, adjustId(registration id); "
+                "load() is replaced by an adapter that turns the signed-prekey list back into the tuple the constructor asserts")
+_r.load = lambda: _set_keys
+
+_ENC_SHAPE = N("enc", {"type": ENCTYPE, "v": WORD("1", "2"), "mediatype": OPT(MEDIATYPE)}, data=BLOB1)
+
+recv(AXO + ":EncProtocolEntity", _ENC_SHAPE,
+     owner="axolotl_receive", module="axolotl", route="internal",
+     notes="sub-entity: built for every <enc> child by EncryptedMessageProtocolEntity.fromProtocolTreeNode")
+send(AXO + ":EncProtocolEntity", [ENCTYPE, CONST(2), BLOB1, OPT(MEDIATYPE)], {"jid": OPT(JID)},
+     owner="axolotl_send", module="axolotl", route="layer", name="EncProtocolEntity_send",
+     notes="sendToContact / sendToGroupWithSessions; with jid the node is wrapped in <to jid=>")
+recv(AXO + ":EncryptedMessageProtocolEntity",
+     N("message", {"from": AJID, "id": ID, "t": TS, "type": WORD("text", "media"), "offline": FLAG,
+                   "notify": OPT(TEXT), "retry": OPT(COUNT), "participant": OPT(JID)},
+       children=[CH(_ENC_SHAPE, 1, 2)]),
+     owner="axolotl_receive", module="axolotl", route="internal",
+     notes="class docstring; consumed by AxolotlReceivelayer.handleEncMessage, re-serialised with a <proto> child added")
+
+
+def _encrypted_message(encs, _type, to, id=None, participant=None):
+    """constructor adapter: builds the EncProtocolEntity list and the MessageMetaAttributes the way
+    AxolotlSendLayer.sendEncEntities does (attributes of the outgoing plaintext node, participant for a directed retry)"""
+    from yowsup.layers.axolotl.protocolentities import EncryptedMessageProtocolEntity, EncProtocolEntity
+    from yowsup.layers.protocol_messages.protocolentities.message import MessageMetaAttributes
+    attrs = MessageMetaAttributes(id=id, recipient=to)
+    attrs.participant = participant
+    return EncryptedMessageProtocolEntity([EncProtocolEntity(t, 2, data, mediatype, jid) for t, data, mediatype, jid in encs],
+                                          _type, attrs)
+
+
+_media = st.one_of(st.none(), MEDIATYPE.strategy)
+_pair_enc = st.tuples(st.sampled_from(["msg", "pkmsg"]), BLOB1.strategy, _media, st.none())
+_pair_enc_to = st.tuples(st.sampled_from(["msg", "pkmsg"]), BLOB1.strategy, _media, JID.strategy)
+_group_enc = st.tuples(st.just("skmsg"), BLOB1.strategy, _media, st.none())
+_r = send(AXO + ":EncryptedMessageProtocolEntity",
+          [Kind("ENC_LIST", st.one_of(
+              st.tuples(_pair_enc),                                                       # 1:1 message / directed retry
+              st.tuples(_group_enc),                                                      # group, sender key known to all
+              st.builds(lambda tos, g: tuple(tos) + (g,), st.lists(_pair_enc_to, min_size=1, max_size=3), _group_enc))),
+           WORD("text", "media"), AJID],
+          {"id": ID, "participant": OPT(JID)},
+          owner="axolotl_send", module="axolotl", route="layer", name="EncryptedMessageProtocolEntity_send",
+          notes="AxolotlSendLayer.sendEncEntities; arguments go through an adapter (enc tuples -> EncProtocolEntity, "
+                "id/to/participant -> MessageMetaAttributes)")
+_r.load = lambda: _encrypted_message
+
+_RETRY_ID = _shared(ID, "retry-receipt-id")
+recv(AXO + ":RetryIncomingReceiptProtocolEntity",
+     N("receipt", {"type": CONST("retry"), "from": AJID, "id": _RETRY_ID, "t": TS, "participant": OPT(JID), "offline": OPT(FLAG)},
+       children=[N("retry", {"count": COUNT, "t": TS, "id": _RETRY_ID, "v": CONST("1")}),
+                 N("registration", data=BYTES(4))]),
+     owner="axolotl_send", module="axolotl", route="internal",
+     notes="class docstring: the <retry> id repeats the receipt id; handled by AxolotlSendLayer when the message is still queued")
+send(AXO + ":RetryOutgoingReceiptProtocolEntity", [ID, AJID, INT, TS],
+     {"participant": OPT(JID), "count": OPT(MAP(WORD("1", "2", "3", "4", "5"), int, "RETRYCOUNT"))},
+     owner="axolotl_receive", module="axolotl", route="layer",
+     notes="AxolotlReceivelayer.send_retry -> fromMessageNode(id, from, registration id (int), t attribute (str), participant); "
+           "count is set on the entity afterwards")
+recv(AXO + ":IdentityChangeEncryptNotification",
+     N("notification", {"t": TS, "id": ID, "from": ONEOF(SERVER, JID), "type": CONST("encrypt")}, children=[N("identity")]),
+     owner="axolotl_control", module="axolotl", route="internal",
+     notes="exactly the docstring attributes (no notify / offline); the layer asks keys for getFrom(), so a user jid is generated too")
+recv(AXO + ":RequestKeysEncryptNotification",
+     N("notification", {"t": TS, "id": ID, "from": SERVER, "type": CONST("encrypt")}, children=[N("count", {"value": COUNT})]),
+     owner="axolotl_control", module="axolotl", route="internal",
+     notes="exactly the docstring attributes (no notify / offline); the fixture inherits notify/offline from the generic notification test")
+
+# ====================================================================================================== calls
+_CALL_KINDS = WORD("offer", "transport", "relaylatency", "reject", "terminate")
+recv(CALLS + ":CallProtocolEntity",
+     N("call", {"from": JID, "id": ID, "t": TS, "offline": FLAG, "notify": OPT(TEXT), "retry": OPT(COUNT), "e": OPT(NUM)},
+       children=[CH(N(_CALL_KINDS, {"call-id": ID}), 0, 1)]),
+     owner="calls",
+     notes="docstring + fixture; the docstring stanza has no child (type None, acked), the fixture an <offer call-id>")
+send(CALLS + ":CallProtocolEntity", [OPT(ID), _CALL_KINDS, INT], {"callId": ID, "_to": JID},
+     owner="calls", route="app", name="CallProtocolEntity_send",
+     notes="no caller in the repository; YowCallsProtocolLayer.sendCall forwards any entity with tag call")
+
+# ====================================================================================================== chatstate
+recv(CHATSTATE + ":IncomingChatstateProtocolEntity",
+     N("chatstate", {"from": JID}, children=[ALT(N("composing"), N("paused"))]),
+     owner="chatstate")
+send(CHATSTATE + ":OutgoingChatstateProtocolEntity", [WORD("composing", "paused"), AJID], owner="chatstate", route="app")
+exclude(CHATSTATE + ":ChatstateProtocolEntity", "base class of the incoming/outgoing chatstate entities")
+
+# ====================================================================================================== contacts
+_SID = MAP(TS, lambda t: str((int(t) + 11644477200) * 10000000), "SID")   # formula of the SyncIqProtocolEntity docstring
+
+
+def _sync_user(number_kind):
+    return N("user", {"jid": JID}, data=number_kind)
+
+
+send(CONTACTS + ":GetSyncIqProtocolEntity", [LIST(PHONE, 1, 4)],
+     {"mode": OPT(WORD("full", "delta")), "context": OPT(WORD("registration", "interactive"))},
+     owner="contacts", route="app", notes="demos pass the number list only; mode/context limited to the class constants")
+recv(CONTACTS + ":ResultSyncIqProtocolEntity",
+     N("iq", {"type": CONST("result"), "from": JID, "id": ID},
+       children=[N("sync", {"index": NUM, "last": WORD("true", "false"), "version": TS, "sid": ONEOF(CONST("1.30615237617e+17"), _SID),
+                            "wait": OPT(NUM)},
+                   children=[CH(N("in", {}, children=_distinct(_sync_user, _number_in)), 0, 1),
+                             CH(N("out", {}, children=_distinct(_sync_user, _number_in)), 0, 1),
+                             CH(N("invalid", {}, children=[CH(N("user", {}, data=TEXTDATA), 1, 3)]), 0, 1)])]),
+     owner="contacts", route="unsolicited",
+     notes="class docstring. The contacts layer does not register the request: any iq result with a <sync> child goes up")
+exclude(CONTACTS + ":SyncIqProtocolEntity", "base class of the get/result sync iq entities")
+
+
+def _contact_notification(child, notify=True):
+    attrs = {"offline": FLAG, "id": ID, "type": CONST("contacts"), "t": TS, "from": JID}
+    if notify:
+        attrs["notify"] = TEXT
+    return N("notification", attrs, children=[child])
+
+
+recv(CONTACTS + ":AddContactNotificationProtocolEntity", _contact_notification(N("add", {"jid": JID})), owner="contacts")
+recv(CONTACTS + ":RemoveContactNotificationProtocolEntity", _contact_notification(N("remove", {"jid": JID})), owner="contacts")
+recv(CONTACTS + ":UpdateContactNotificationProtocolEntity", _contact_notification(N("update", {"jid": JID})), owner="contacts")
+recv(CONTACTS + ":ContactsSyncNotificationProtocolEntity", _contact_notification(N("sync", {"after": TS}), notify=False),
+     owner="contacts", notes="the docstring stanza (a captured one) has no notify attribute")
+
+# ====================================================================================================== ib
+recv(IB + ":DirtyIbProtocolEntity",
+     N("ib", {}, children=[N("dirty", {"type": WORD("groups"), "timestamp": TS})]),
+     owner="ib", notes="docstring + fixture: no attributes on <ib>")
+recv(IB + ":OfflineIbProtocolEntity",
+     N("ib", {"from": SERVER}, children=[N("offline", {"count": COUNT})]),
+     owner="ib", notes="docstring: <ib from=s.whatsapp.net> (the fixture has a bare <ib>)")
+recv(IB + ":AccountIbProtocolEntity",
+     N("ib", {"from": SERVER}, children=[N("account", {"status": WORD("active"), "kind": WORD("paid"), "creation": TS, "expiration": TS})]),
+     owner="ib", notes="docstring")
+send(IB + ":CleanIqProtocolEntity", [WORD("groups"), SERVER], owner="ib", route="app",
+     notes="cli demo: CleanIqProtocolEntity('groups', YowConstants.DOMAIN)")
+
+# ====================================================================================================== iq
+exclude(IQ + ":IqProtocolEntity", "base class of all iq entities; never built or sent as such by a layer")
+recv(IQ + ":ResultIqProtocolEntity",
+     N("iq", {"type": CONST("result"), "id": ID, "from": SERVER, "xmlns": OPT(CONST("w:p"))}),
+     owner="iq", route="reply", request="PingIqProtocolEntity",
+     notes="YowIqProtocolLayer.onPong; also the success reply of several set requests in the groups/profiles layers. "
+           "xmlns is read by the parser and present in the fixture, absent in the docstring")
+recv(IQ + ":ErrorIqProtocolEntity",
+     N("iq", {"type": CONST("error"), "id": ID, "from": ONEOF(SERVER, AJID)},
+       children=[N("error", {"text": ONEOF(WORD("not-acceptable"), TEXT), "code": Kind("ERRCODE", st.integers(400, 599).map(str)),
+                             "backoff": OPT(COUNT)})]),
+     owner="presence", route="reply", request="LastseenIqProtocolEntity",
+     notes="class docstring; delivered by the presence, groups, profiles and media layers as the error answer of their requests")
+send(IQ + ":PingIqProtocolEntity", [], {"to": OPT(SERVER)}, owner="iq", route="app",
+     notes="cli demo passes to=DOMAIN; YowPingThread sends a bare PingIqProtocolEntity() by itself")
+send(IQ + ":PongResultIqProtocolEntity", [SERVER, ID], owner="iq", route="layer",
+     notes="answer to a server ping (xmlns urn:xmpp:ping), carries the ping's id")
+send(IQ + ":PushIqProtocolEntity", [], owner="iq", route="app")
+send(IQ + ":PropsIqProtocolEntity", [], owner="iq", route="app")
+send(IQ + ":CryptoIqProtocolEntity", [], owner="iq", route="app", notes="cli demo 'seq' command")
+
+# ====================================================================================================== presence
+recv(PRESENCE + ":PresenceProtocolEntity",
+     N("presence", {"from": JID, "type": OPT(WORD("unavailable")), "last": OPT(ONEOF(WORD("deny"), TS))}),
+     owner="presence", notes="the two incoming docstring forms: contact online (from only), offline (type=unavailable, last)")
+send(PRESENCE + ":PresenceProtocolEntity", [], {"name": TEXT}, owner="presence", route="app", name="PresenceProtocolEntity_send",
+     notes="cli demo: PresenceProtocolEntity(name=pushname)")
+send(PRESENCE + ":AvailablePresenceProtocolEntity", [], owner="presence", route="app")
+send(PRESENCE + ":UnavailablePresenceProtocolEntity", [], owner="presence", route="app")
+send(PRESENCE + ":SubscribePresenceProtocolEntity", [JID], owner="presence", route="app")
+send(PRESENCE + ":UnsubscribePresenceProtocolEntity", [JID], owner="presence", route="app")
+send(PRESENCE + ":LastseenIqProtocolEntity", [JID], owner="presence", route="app")
+recv(PRESENCE + ":ResultLastseenIqProtocolEntity",
+     N("iq", {"type": CONST("result"), "id": ID, "from": JID}, children=[N("query", {"seconds": NUM})]),
+     owner="presence", route="reply", request="LastseenIqProtocolEntity",
+     notes="no docstring: the parser reads from, id and query/seconds")
+
+# ====================================================================================================== privacy
+send(PRIVACY + ":PrivacyListIqProtocolEntity", [], {"name": OPT(CONST("default"))}, owner="privacy", module="privacy", route="app",
+     notes="cli demo constructs it without arguments")
